@@ -1,6 +1,7 @@
 package main
 
 import (
+	"go/token"
 	"fmt"
 	"strings"
 
@@ -19,6 +20,7 @@ func init() {
 }
 
 func runC12(c *Ctx) {
+	checkNoSuccessorSentinel(c)
 	p := c.P
 	c.Assume = append(c.Assume, "equivalence with a sorted-map model, bound inclusivity for keys of different lengths and pebble's scan semantics are value-level and not decided")
 	const dbT = "db/diffdb.Database"
@@ -633,4 +635,47 @@ func checkSentinelProducers(c *Ctx, rule string, commit *ssa.Function) {
 		c.Require(rule, "cacheDB.commit tests init against nil", p.Pos(commit.Pos()), "commit classifies by init == nil", uses >= 2, "")
 	}
 
+}
+
+// checkNoSuccessorSentinel — R12. upperBound answers nil for a key made of 0xff bytes only ("no
+// successor"). As an iterator option nil means "unbounded", which is right; as the argument of a
+// seek it means "before every key": a reverse scan that seeks below the successor of its end bound
+// must take the no-successor case separately (start from the last key), or the scan of a range
+// that ends at ff…ff comes back empty while the forward scan of the same range does not.
+func checkNoSuccessorSentinel(c *Ctx) {
+	p := c.P
+	n := 0
+	for _, fn := range p.OwnFuncs {
+		if !IsProd(fn) || len(fn.Blocks) == 0 || !strings.HasPrefix(FuncKey(fn), "pkg/db.") {
+			continue
+		}
+		ff := factsOf(fn)
+		for _, call := range AllCalls(fn) {
+			cc := call.Common()
+			name := ""
+			if cc.IsInvoke() {
+				name = cc.Method.Name()
+			} else if g := cc.StaticCallee(); g != nil {
+				name = g.Name()
+			}
+			if name != "SeekLT" && name != "SeekGE" && name != "SeekPrefixGE" {
+				continue
+			}
+			for _, a := range cc.Args {
+				t := ff.Term(a)
+				if !(t.Op == "call" && strings.HasSuffix(t.Sym, "db.upperBound")) {
+					continue
+				}
+				n++
+				ok := false
+				for _, f := range ff.FactsAt(call.Block()) {
+					if f.IsCmp && f.Op == token.NEQ && f.R.Sym == "nil" && f.L.String() == t.String() {
+						ok = true
+					}
+				}
+				c.Require("C12.R12 no-successor-sentinel-handled", FuncKey(fn)+": "+name+"(upperBound(…))", p.InstrPos(call), "a seek to the successor of a bound is made only where that successor exists (upperBound answered non-nil)", ok, "")
+			}
+		}
+	}
+	c.MinInstances("C12.R12 no-successor-sentinel-handled", n, 1)
 }
